@@ -47,6 +47,7 @@ c.ensures('frame[_s_successors]', lambda c: unchanged_field(
 c.ensures('frame[elems]', lambda c: old_sets_unchanged(c.pre, c.cur))
 c.ensures('alive-mono', lambda c: alive_mono(c.pre, c.cur))
 c.ensures('allocates-only-sets', lambda c: allocates_only(c.pre, c.cur, 'set'))
+c.ensures('frame[roles]', lambda c: roles_frame(c.pre, c.cur))
 
 
 def _bl_fresh(c, which):
@@ -67,6 +68,7 @@ c.loop(0, inv=[
     ('old-sets-unchanged', lambda c: old_sets_unchanged(c.pre, c.cur)),
     ('alive-mono', lambda c: alive_mono(c.pre, c.cur)),
     ('allocates-only-sets', lambda c: allocates_only(c.pre, c.cur, 'set')),
+    ('frame[roles]', lambda c: roles_frame(c.pre, c.cur)),
 ])
 # outer loop of the second phase: for job in self.jobs
 c.loop(1, inv=[
@@ -429,7 +431,7 @@ c.requires('starts-are-jobs', lambda c: (lambda i: ForAll([i], Implies(
     And(0 <= i, i < c.pre.llen(c.a.starts)),
     And(isa['AbstractJob'](c.pre.lat(c.a.starts, i)), c.pre.alive(c.pre.lat(c.a.starts, i)))),
     patterns=[c.pre.lat(c.a.starts, i)]))(fresh('i', L.I)))
-c.modifies('$elems', '$alive')
+c.modifies('$elems', '$alive', '$setrole')
 
 
 def _nb_post(c):
@@ -442,7 +444,8 @@ def _nb_post(c):
 
 c.ensures('result-is-the-image-within-members', _nb_post)
 c.ensures('result-fresh', lambda c: And(Not(c.pre.alive(c.result)), c.cur.alive(c.result),
-                                        isa['set'](c.result)))
+                                        isa['set'](c.result), c.cur.f('$setrole', c.result) == 0))
+c.ensures('frame[roles]', lambda c: roles_frame(c.pre, c.cur))
 c.ensures('frame[elems]', lambda c: old_sets_unchanged(c.pre, c.cur))
 
 
@@ -456,7 +459,7 @@ def _nb_outer(c):
     return [
         ('partial-image', ForAll([n], c.cur.mem(nbs, n) == N_of(c, c.pre, S, fld, seen)(n),
                                  patterns=[c.cur.mem(nbs, n)])),
-        ('result-fresh', And(Not(c.pre.alive(nbs)), c.cur.alive(nbs), isa['set'](nbs))),
+        ('result-fresh', And(Not(c.pre.alive(nbs)), c.cur.alive(nbs), isa['set'](nbs), c.cur.f('$setrole', nbs) == 0)),
         ('frame[elems]', old_sets_unchanged(c.pre, c.cur)),
     ]
 
@@ -473,7 +476,7 @@ def _nb_inner(c):
         ('partial-image-inner', ForAll([n], c.cur.mem(nbs, n) == Or(
             N_of(c, c.pre, S, fld, seen)(n), And(member(c.pre, S, n), Select(c.visited, n))),
             patterns=[c.cur.mem(nbs, n)])),
-        ('result-fresh', And(Not(c.pre.alive(nbs)), c.cur.alive(nbs), isa['set'](nbs))),
+        ('result-fresh', And(Not(c.pre.alive(nbs)), c.cur.alive(nbs), isa['set'](nbs), c.cur.f('$setrole', nbs) == 0)),
         ('frame[elems]', old_sets_unchanged(c.pre, c.cur)),
     ]
 
@@ -506,12 +509,14 @@ c = contract('PureScheduler.predecessors', F).param('self').param('starts', 'var
 c.for_props('C17')
 c.requires('self-is-scheduler', lambda c: is_sched(c.a.self))
 c.requires('starts-are-jobs', starts_are_jobs)
-c.modifies('$elems', '$alive')
+c.modifies('$elems', '$alive', '$setrole')
+c.ensures('frame[roles]', lambda c: roles_frame(c.pre, c.cur))
 c.ensures('exactly-the-members-directly-required-by-a-start', lambda c: (lambda n, s: ForAll([n],
           c.cur.mem(c.result, n) == And(member(c.pre, c.a.self, n),
                                         Exists([s], And(starts_has(c.pre, c.a.starts, s, c), E(c.pre, s, n)))),
           patterns=[c.cur.mem(c.result, n)]))(*q(2)))
-c.ensures('result-fresh', lambda c: And(Not(c.pre.alive(c.result)), c.cur.alive(c.result)))
+c.ensures('result-fresh', lambda c: And(Not(c.pre.alive(c.result)), c.cur.alive(c.result),
+                                        c.cur.f('$setrole', c.result) == 0))
 c.ensures('frame[elems]', lambda c: old_sets_unchanged(c.pre, c.cur))
 
 # ---- successors (generator)
@@ -571,8 +576,8 @@ def _ncl_common(c):
          patterns=[z3.MultiPattern(Select(SS, s), Nrel(c, s, n))])),
         ('A2-within-every-closed-set', Implies(closed_under(c, C), L.subset(R, C))),
         ('A3-within-members', L.subset(R, J(c.pre, S))),
-        ('A4-closure-fresh', And(Not(c.pre.alive(cl)), c.cur.alive(cl), isa['set'](cl))),
-        ('A5-frame[elems]', old_sets_unchanged(c.pre, c.cur)),
+        ('A4-closure-fresh', And(Not(c.pre.alive(cl)), c.cur.alive(cl), isa['set'](cl), c.cur.f('$setrole', cl) == 0)),
+        ('A5-frame[elems]', And(old_sets_unchanged(c.pre, c.cur), roles_frame(c.pre, c.cur))),
     ]
 
 
@@ -625,7 +630,7 @@ c.for_props('C17', 'C18')
 c.requires('self-is-scheduler', lambda c: is_sched(c.a.self))
 c.requires('attname-is-required-or-successors', attname_ok)
 c.requires('starts-are-jobs', starts_are_jobs)
-c.modifies('$elems', '$alive', '$llen', '$lat')
+c.modifies('$elems', '$alive', '$llen', '$lat', '$setrole')
 
 
 def _ncl_post_closed(c):
@@ -646,7 +651,8 @@ c.ensures('closed-under-neighbours-and-contains-image-of-starts', _ncl_post_clos
 c.ensures('least-such-set', _ncl_post_least)
 c.ensures('within-members', lambda c: L.subset(c.cur.elems(c.result), J(c.pre, c.a.self)))
 c.ensures('result-fresh', lambda c: And(Not(c.pre.alive(c.result)), c.cur.alive(c.result),
-                                        isa['set'](c.result)))
+                                        isa['set'](c.result), c.cur.f('$setrole', c.result) == 0))
+c.ensures('frame[roles]', lambda c: roles_frame(c.pre, c.cur))
 c.ensures('frame[elems]', lambda c: old_sets_unchanged(c.pre, c.cur))
 c.loop(0, inv=_clauses(_ncl_common, _NCL_COMMON, 'ncl'), hints=_ncl_hints,
        variant=lambda c: card(J(c.pre, c.a.self)) - card(_R(c)))
@@ -698,12 +704,20 @@ c = contract('PureScheduler.predecessors_upstream', F).param('self').param('star
 c.for_props('C17', 'C18')
 c.requires('self-is-scheduler', lambda c: is_sched(c.a.self))
 c.requires('starts-are-jobs', starts_are_jobs)
-c.modifies('$elems', '$alive', '$llen', '$lat')
+c.modifies('$elems', '$alive', '$llen', '$lat', '$setrole')
+c.ensures('frame[roles]', lambda c: roles_frame(c.pre, c.cur))
 _cp, _lp = _closure_posts(c, 'required')
-c.ensures('closed-under-requirements-and-contains-those-of-the-starts', _cp)
+def _cp_export(cc, _cp=_cp):
+    if cc.mode == 'assume':
+        cc.cur.g['$upstream'] = cc.result
+    return _cp(cc)
+
+
+c.ensures('closed-under-requirements-and-contains-those-of-the-starts', _cp_export)
 c.ensures('least-such-set', _lp)
 c.ensures('within-members', lambda c: L.subset(c.cur.elems(c.result), J(c.pre, c.a.self)))
-c.ensures('result-fresh', lambda c: And(Not(c.pre.alive(c.result)), c.cur.alive(c.result), isa['set'](c.result)))
+c.ensures('result-fresh', lambda c: And(Not(c.pre.alive(c.result)), c.cur.alive(c.result), isa['set'](c.result),
+                                        c.cur.f('$setrole', c.result) == 0))
 c.ensures('frame[elems]', lambda c: old_sets_unchanged(c.pre, c.cur))
 
 c = contract('PureScheduler.successors_downstream', F).param('self').param('starts', 'varargs') \
@@ -725,6 +739,8 @@ def _down_rel(cc):
 
 
 def _down_closed(cc):
+    if cc.mode == 'assume':
+        cc.cur.g['$downstream'] = cc.result
     R = cc.cur.elems(cc.result)
     s, n = q(2)
     rel = _down_rel(cc)
@@ -762,6 +778,8 @@ def _down_least(cc):
 c.ensures('closed-under-being-required-and-contains-the-dependants-of-the-starts', _down_closed)
 c.ensures('least-such-set', _down_least)
 c.ensures('within-members', lambda c: L.subset(c.cur.elems(c.result), J(c.pre, c.a.self)))
-c.ensures('result-fresh', lambda c: And(Not(c.pre.alive(c.result)), c.cur.alive(c.result), isa['set'](c.result)))
+c.ensures('result-fresh', lambda c: And(Not(c.pre.alive(c.result)), c.cur.alive(c.result), isa['set'](c.result),
+                                        c.cur.f('$setrole', c.result) == 0))
+c.ensures('frame[roles]', lambda c: roles_frame_except_backlinks(c.pre, c.cur, c.a.self))
 c.ensures('frame[elems]', lambda c: old_sets_unchanged(c.pre, c.cur))
 c.ensures('BL', lambda c: BL(c.cur, c.a.self, J(c.pre, c.a.self)))
